@@ -14,7 +14,7 @@ use crate::kabi as k;
 use crate::ptworld::{as_caller, cpath, errno, fd_count, snap, snap_diff, thread_creds, PtCfg, PtWorld};
 use crate::report::Report;
 
-pub const NAMES: [&str; 8] = ["a", "b", "l", "fifo", "d", "h", "pub", "esc"];
+pub const NAMES: [&str; 10] = ["a", "b", "l", "fifo", "d", "h", "pub", "esc", "..data", "..new"];
 const CALLERS: [(u32, u32); 2] = [(0, 0), (1000, 1000)];
 
 #[derive(Clone, Copy, Debug, PartialEq, Eq, Hash)]
@@ -62,6 +62,8 @@ pub enum Op {
     Fsync(bool),
     Flush,
     Release,
+    /// fcntl(F_SETFL) on the client side: later requests on the newest handle carry O_APPEND (true) or not (false)
+    SetFl(bool),
 }
 
 const OPEN_FLAGS: [i32; 6] = [
@@ -83,6 +85,23 @@ pub fn c05_alphabet(rich: bool) -> Vec<Op> {
     }
     v.push(Op::Lookup(D::Dd, 0));
     v.push(Op::Lookup(D::Root, 5));
+    // legal names that merely begin with two dots
+    v.push(Op::Lookup(D::Root, 8));
+    v.push(Op::Lookup(D::Root, 9));
+    v.push(Op::Lookup(D::Dd, 9));
+    v.push(Op::Getattr(D::Root, 8));
+    v.push(Op::Mkdir(D::Root, 9, 0));
+    v.push(Op::Mknod(D::Root, 9, 0, 0));
+    v.push(Op::Create(D::Root, 9, 0, 0));
+    v.push(Op::Create(D::Root, 8, 1, 0));
+    v.push(Op::Symlink(D::Root, 9, 0, 0));
+    v.push(Op::Link(0, D::Root, 9));
+    v.push(Op::Unlink(D::Root, 8));
+    v.push(Op::Rename(D::Root, 8, D::Root, 9, 0));
+    v.push(Op::Rename(D::Root, 0, D::Root, 9, 0));
+    v.push(Op::Open(8, 0));
+    v.push(Op::SetFl(true));
+    v.push(Op::SetFl(false));
     v.push(Op::Getattr(D::Root, 0));
     v.push(Op::Getattr(D::Root, 2));
     for n in [0usize, 1] {
@@ -560,6 +579,19 @@ impl Pt {
                     }
                 }
             }
+            Op::SetFl(append) => {
+                let Some(h) = self.handles.last_mut() else { return false };
+                if h.dir || h.fh == 0 {
+                    return false;
+                }
+                let want = if append { h.flags | libc::O_APPEND } else { h.flags & !libc::O_APPEND };
+                if want == h.flags {
+                    return false;
+                }
+                h.flags = want;
+                let sfd = h.shadow.as_ref().unwrap().as_raw_fd();
+                unsafe { libc::fcntl(sfd, libc::F_SETFL, want & (libc::O_APPEND | libc::O_NONBLOCK | libc::O_NOATIME | libc::O_DIRECT)) };
+            }
             Op::Write(off, len) => {
                 let Some(h) = self.handles.last() else { return false };
                 if h.dir || ((h.fh == 0 || len == 0) && (h.flags & libc::O_ACCMODE) == libc::O_RDONLY) {
@@ -1007,6 +1039,9 @@ pub fn c05(args: &Args) -> Report {
             vec![Op::Rename(D::Root, 0, D::Root, 1, 0), Op::Rename(D::Root, 1, D::Dd, 1, 0), Op::Lookup(D::Dd, 1), Op::Mknod(D::Root, 0, 0, 0), Op::Rename(D::Root, 0, D::Root, 5, 2), Op::Getattr(D::Root, 0)],
             vec![Op::Open(0, 3), Op::Write(0, 2), Op::Write(0, 2), Op::Setattr(0, 5, true), Op::Write(0, 2), Op::Read(0, 4096), Op::Release, Op::Open(0, 0), Op::Read(0, 4096)],
             vec![Op::Symlink(D::Root, 1, 0, 0), Op::Readlink(1), Op::Unlink(D::Root, 1), Op::Symlink(D::Root, 1, 1, 0), Op::Readlink(1), Op::Lookup(D::Root, 1)],
+            // the client toggles O_APPEND on an open file: the request flags change back and forth on one handle
+            vec![Op::Open(0, 1), Op::SetFl(true), Op::Write(0, 2), Op::SetFl(false), Op::Write(0, 2), Op::Write(1, 2), Op::SetFl(true), Op::Write(0, 2), Op::Release, Op::Open(0, 0), Op::Read(0, 4096)],
+            vec![Op::Open(0, 3), Op::SetFl(false), Op::Write(0, 2), Op::SetFl(true), Op::Write(0, 2), Op::SetFl(false), Op::Write(0, 2), Op::Release, Op::Open(0, 0), Op::Read(0, 4096)],
         ];
         let b = PtCfg::base();
         let cfgs = vec![
@@ -2341,6 +2376,9 @@ fn dir_names(n: usize, uniform: bool) -> Vec<String> {
         })
         .collect::<BTreeSet<String>>()
         .into_iter()
+        .enumerate()
+        // from three entries on, some legal names that look special: hidden files and names that merely begin with dots
+        .map(|(i, name)| if n >= 3 && i < 4 { ["..data", "...", ".hidden", "a..b"][i].to_string() } else { name })
         .collect()
 }
 
